@@ -71,6 +71,9 @@ def check_c12(tier: str, seed: int) -> int:
     t0 = time.time()
     ensure_speclib()
     st, out = tlcrun.check("MC_Gates", "MC_Gates.cfg", workers=8, timeout=1200)
+    if '"IDENTITIES"' not in out or '"FAILED"' in out:      # the definition itself is wrong: nothing derived from it is believed
+        print("Gates.tla does not satisfy its own identities\n" + out[-3000:])
+        return 2
     rc, txt = _py("harness.c12_cells", [os.path.join(OUT, "c12_result.json")])
     if rc != 0:
         print(txt[-3000:])
